@@ -19,6 +19,7 @@ import GomlVerif.Driver.C07
 import GomlVerif.Driver.C03
 import GomlVerif.Driver.Dce
 import GomlVerif.Driver.C09
+import GomlVerif.Driver.GoComp
 import GomlVerif.Driver.C01pipe
 
 def main (args : List String) : IO UInt32 := do
@@ -46,5 +47,6 @@ def main (args : List String) : IO UInt32 := do
   | ["c03"] => Goml.Driver.C03.main; return 0
   | ["dce"] => Goml.Driver.Dce.main; return 0
   | ["c09"] => Goml.Driver.C09.main; return 0
+  | ["gocomp"] => Goml.Driver.GoComp.main; return 0
   | ["c01pipe"] => Goml.Driver.C01pipe.main; return 0
   | _ => IO.eprintln "usage: gomlmodel <c05|…> < lines"; return 2
